@@ -353,6 +353,28 @@ def r7(ctx):
                 if isinstance(root, ast.Name) and root.id in ("self", "cls") and c.func.value is not root \
                         and any(names_in(a_) & tainted for a_ in list(c.args) + [k.value for k in c.keywords]):
                     bad.append(U(c.func))
+        # memoisation through a container handed in by the caller: a parameter that receives a value derived from rng under a key AND is
+        # read back in the same function (`if k in cache: return cache[k]` ... `cache[k] = draw`): the caller decides how long the draw lives
+        params = set(f.params) - {"rng", "self", "cls"}
+        stored_in, read_from = set(), set()
+        for a in assigns:
+            if isinstance(a, ast.Assign) and names_in(a.value) & tainted:
+                for t in a.targets:
+                    if isinstance(t, ast.Subscript) and isinstance(t.value, ast.Name) and t.value.id in params:
+                        stored_in.add(t.value.id)
+        for c in calls(f.node):
+            if isinstance(c.func, ast.Attribute) and c.func.attr in ("setdefault", "update", "__setitem__") and isinstance(c.func.value, ast.Name) and c.func.value.id in params \
+                    and any(names_in(a_) & tainted for a_ in list(c.args) + [k.value for k in c.keywords]):
+                stored_in.add(c.func.value.id)
+                if c.func.attr == "setdefault":
+                    read_from.add(c.func.value.id)
+        for x in ast.walk(f.node):
+            if isinstance(x, ast.Subscript) and isinstance(x.ctx, ast.Load) and isinstance(x.value, ast.Name) and x.value.id in stored_in:
+                read_from.add(x.value.id)
+            if isinstance(x, ast.Call) and isinstance(x.func, ast.Attribute) and x.func.attr in ("get", "pop") and isinstance(x.func.value, ast.Name) and x.func.value.id in stored_in:
+                read_from.add(x.func.value.id)
+        for p_ in sorted(stored_in & read_from):
+            bad.append(f"the caller's `{p_}` (written and read back here: a memo of the draw)")
         ctx.check("R7", f"{f.site()}::draws-do-not-outlive-the-call", not bad, "nothing derived from the passed generator is stored on the instance / class / module",
                   f"a value derived from `rng` is kept in {sorted(set(bad))}: a later call with an identically seeded generator can reuse it instead of drawing")
     ctx.need(n >= 10, f"only {n} functions with an rng parameter found")
